@@ -1773,6 +1773,10 @@ class _BoundVars(ast.NodeTransformer):
         return node
 
 
+# members (in definition order) of the private enumerations of the module being normalised (set by Canon.body)
+_ENUM_MEMBERS: dict[str, list[str]] = {}
+
+
 def _completion_order(e):
     """sub-expressions in the order their evaluation completes (operands before the operation, arguments left to right)"""
     for ch in ast.iter_child_nodes(e):
@@ -1876,8 +1880,63 @@ class _FoldConst(ast.NodeTransformer):
             node = orig
         return node
 
+    def _unrolled(self, node):
+        """a comprehension over a literal sequence of names / constants (at most 6, no filter): the display it builds"""
+        self.generic_visit(node)
+        if len(node.generators) != 1 or node.generators[0].ifs or node.generators[0].is_async:
+            return node
+        g = node.generators[0]
+        rows = g.iter.elts if isinstance(g.iter, (ast.Tuple, ast.List)) else None
+        it_ = g.iter
+        if rows is None and isinstance(it_, ast.Call) and isinstance(it_.func, ast.Attribute) and it_.func.attr in ("items", "keys", "values") and not it_.args and not it_.keywords \
+                and isinstance(it_.func.value, ast.Dict) and all(k_ is not None for k_ in it_.func.value.keys) \
+                and len({u(k_) for k_ in it_.func.value.keys}) == len(it_.func.value.keys):
+            d_ = it_.func.value
+            rows = {"items": [ast.Tuple(elts=[k_, v_], ctx=ast.Load()) for k_, v_ in zip(d_.keys, d_.values)], "keys": list(d_.keys), "values": list(d_.values)}[it_.func.attr]
+            # (rows holding computed values are written in once each: the element may read its row's value only once)
+            if any(not _table_entry(v_) for v_ in d_.values):
+                tn_ = [n.id for n in ast.walk(g.target) if isinstance(n, ast.Name)]
+                parts_ = [getattr(node, f_) for f_ in ("elt", "key", "value") if hasattr(node, f_)]
+                if any(sum(1 for p_ in parts_ for n in ast.walk(p_) if isinstance(n, ast.Name) and n.id == t_) > 1 for t_ in tn_[1:]) and \
+                        not all(norm.is_pure(v_, _PURE_EXT) for v_ in d_.values):
+                    return node
+                return self._unrolled_rows(node, g, rows)
+        if rows is None and isinstance(g.iter, ast.Name) and g.iter.id in _ENUM_MEMBERS:
+            rows = [ast.Attribute(value=ast.Name(id=g.iter.id, ctx=ast.Load()), attr=m_, ctx=ast.Load()) for m_ in _ENUM_MEMBERS[g.iter.id]]
+        if rows is None or not 1 <= len(rows) <= 6 or any(isinstance(e, ast.Starred) for e in rows):
+            return node
+        return self._unrolled_rows(node, g, rows, strict=True)
+
+    def _unrolled_rows(self, node, g, rows, strict=False):
+        if not 1 <= len(rows) <= 6:
+            return node
+        out = []
+        for e in rows:
+            mp = _destructure(g.target, e) if strict else _destructure_any(g.target, e)
+            if mp is None:
+                return node
+            sub = norm._Subst(dict(mp))
+            if isinstance(node, ast.DictComp):
+                out.append((sub.visit(copy.deepcopy(node.key)), sub.visit(copy.deepcopy(node.value))))
+            else:
+                out.append(sub.visit(copy.deepcopy(node.elt)))
+        if isinstance(node, ast.DictComp):
+            if len({u(k) for k, _ in out}) != len(out):
+                return node
+            return ast.fix_missing_locations(ast.copy_location(ast.Dict(keys=[k for k, _ in out], values=[v for _, v in out]), node))
+        if isinstance(node, ast.ListComp):
+            return ast.fix_missing_locations(ast.copy_location(ast.List(elts=out, ctx=ast.Load()), node))
+        return node
+    visit_DictComp = visit_ListComp = _unrolled
+
     def visit_Subscript(self, node):
         self.generic_visit(node)
+        if isinstance(node.ctx, ast.Load) and isinstance(node.value, ast.Dict) and norm._attr_chain(node.slice) is not None and node.value.keys \
+                and all(k_ is not None and norm._attr_chain(k_) is not None for k_ in node.value.keys) and all(norm.is_pure(e, _PURE_EXT) for e in node.value.values):
+            # keyed by names (enum members): the entry written under the same name
+            hits = [e for k_, e in zip(node.value.keys, node.value.values) if u(k_) == u(node.slice)]
+            if len(hits) == 1 and len({u(k_) for k_ in node.value.keys}) == len(node.value.keys):
+                return hits[0]
         if not isinstance(node.ctx, ast.Load) or not isinstance(node.slice, ast.Constant):
             return node
         v, k = node.value, node.slice.value
@@ -2059,6 +2118,41 @@ def known_defs() -> set[str]:
     return _KNOWN
 
 
+def split_dict_locals(stmts):
+    """rows = {K1: V1, K2: V2}  with rows bound once and read only as rows[K1] / rows[K2] (the keys written the same way): one local per
+    entry, bound in the order the display evaluates them"""
+    uses = {}
+    for s_ in stmts:
+        for n in ast.walk(s_):
+            if isinstance(n, ast.Name):
+                uses.setdefault(n.id, []).append(n)
+    out = list(stmts)
+    for i, s_ in enumerate(stmts):
+        if not (isinstance(s_, ast.Assign) and len(s_.targets) == 1 and isinstance(s_.targets[0], ast.Name) and isinstance(s_.value, ast.Dict) and s_.value.keys):
+            continue
+        x, d_ = s_.targets[0].id, s_.value
+        if any(k is None or not (isinstance(k, ast.Constant) or norm._attr_chain(k) is not None) for k in d_.keys) or len({u(k) for k in d_.keys}) != len(d_.keys):
+            continue
+        if sum(1 for n in uses.get(x, []) if not isinstance(n.ctx, ast.Load)) != 1:
+            continue
+        keys = [u(k) for k in d_.keys]
+        subs = {id(n.value): n for b_ in stmts for n in ast.walk(b_) if isinstance(n, ast.Subscript) and isinstance(n.value, ast.Name) and n.value.id == x}
+        loads = [n for n in uses.get(x, []) if isinstance(n.ctx, ast.Load)]
+        if not loads or not all(id(n) in subs and isinstance(subs[id(n)].ctx, ast.Load) and u(subs[id(n)].slice) in keys for n in loads):
+            continue
+        names = {k: f"{x}__{j}" for j, k in enumerate(keys)}
+
+        class R(ast.NodeTransformer):
+            def visit_Subscript(self, node):
+                if isinstance(node.value, ast.Name) and node.value.id == x and isinstance(node.ctx, ast.Load) and u(node.slice) in names:
+                    return ast.copy_location(ast.Name(id=names[u(node.slice)], ctx=ast.Load()), node)
+                return self.generic_visit(node)
+        binds = [ast.fix_missing_locations(ast.copy_location(ast.Assign(targets=[ast.Name(id=names[u(k)], ctx=ast.Store())], value=v), s_)) for k, v in zip(d_.keys, d_.values)]
+        rest = [R().visit(b_) for b_ in out[i + 1:]]
+        return split_dict_locals(out[:i] + binds + rest)
+    return out
+
+
 def inline_table_locals(stmts):
     """table = ((A, f), (B, g)); ..; for row in table: ..     with `table` bound once to a display of names / constants / lambdas and read
     once, as the iterable of a loop: the display is written there (the loop is then a literal one in both substitution modes)"""
@@ -2141,6 +2235,22 @@ def _destructure(t, e):
         mp = {}
         for t2, e2 in zip(t.elts, e.elts):
             r_ = _destructure(t2, e2)
+            if r_ is None:
+                return None
+            mp.update(r_)
+        return mp
+    return None
+
+
+def _destructure_any(t, e):
+    """like _destructure, the entries being any expressions"""
+    if isinstance(t, ast.Name):
+        return {t.id: e}
+    if isinstance(t, (ast.Tuple, ast.List)) and isinstance(e, (ast.Tuple, ast.List)) and len(t.elts) == len(e.elts) \
+            and not any(isinstance(x, ast.Starred) for x in list(t.elts) + list(e.elts)):
+        mp = {}
+        for t2, e2 in zip(t.elts, e.elts):
+            r_ = _destructure_any(t2, e2)
             if r_ is None:
                 return None
             mp.update(r_)
@@ -2885,11 +2995,21 @@ class Canon:
                 for k_, v_ in c.class_assigns.items():
                     if isinstance(v_, ast.Constant) and type(v_.value) is int:
                         members[(cname, k_)] = v_
-        if members:
+        # .value of a member of any private enumeration the tables do not know: the literal it was given
+        values = {}
+        for cname, c in module.classes.items():
+            if cname.startswith("_") and f"class:{cname}" not in known and any(u(b_).split(".")[-1] in ("Enum", "IntEnum", "StrEnum", "Flag", "IntFlag") for b_ in c.node.bases):
+                for k_, v_ in c.class_assigns.items():
+                    if isinstance(v_, ast.Constant) and isinstance(v_.value, (int, str)) and not isinstance(v_.value, bool):
+                        values[(cname, k_)] = v_
+        if members or values:
             class M(ast.NodeTransformer):
                 def visit_Attribute(self, node):
                     if isinstance(node.value, ast.Name) and (node.value.id, node.attr) in members and isinstance(node.ctx, ast.Load):
                         return ast.copy_location(copy.deepcopy(members[(node.value.id, node.attr)]), node)
+                    if node.attr == "value" and isinstance(node.value, ast.Attribute) and isinstance(node.value.value, ast.Name) \
+                            and (node.value.value.id, node.value.attr) in values and isinstance(node.ctx, ast.Load):
+                        return ast.copy_location(copy.deepcopy(values[(node.value.value.id, node.value.attr)]), node)
                     return self.generic_visit(node)
             stmts = [M().visit(s_) for s_ in stmts]
         if not consts:
@@ -3664,6 +3784,15 @@ class Canon:
                     kd, m = ek.find_method(f.attr)
                     if m is not None and not m.decorator_list and not any(f"{b_.name}.{f.attr}" in known for b_ in ek.mro):
                         return explicit_super(m, kd), True, prep
+                    return None
+            if isinstance(f, ast.Attribute) and isinstance(f.value, ast.Attribute) and isinstance(f.value.value, ast.Name) and f.value.value.id in module.classes \
+                    and f.value.value.id.startswith("_") and f"class:{f.value.value.id}" not in known and f.attr not in keep:
+                # _Enum.MEMBER.m(..): a method of a private enumeration the tables do not know, run for that member
+                k_ = module.classes[f.value.value.id]
+                if any(u(b_).split(".")[-1] in ("Enum", "IntEnum", "StrEnum", "Flag", "IntFlag") for b_ in k_.node.bases) and f.value.attr in k_.class_assigns:
+                    kd, m = k_.find_method(f.attr)
+                    if m is not None and not m.decorator_list:
+                        return m, True, prep
                     return None
             in_classmethod = any(u(d_) == "classmethod" for d_ in fn.decorator_list) and fn.args.args and fn.args.args[0].arg == "cls"
             if isinstance(f, ast.Attribute) and isinstance(f.value, ast.Name) and (
@@ -4601,6 +4730,12 @@ class Canon:
         if key in self.cache and fn.name != "_module_level_":       # (synthetic functions are short-lived: their id can be reused)
             return self.cache[key]
         self._cur_cls = cls
+        _ENUM_MEMBERS.clear()
+        for cn_, c_ in module.classes.items():
+            if cn_.startswith("_") and f"class:{cn_}" not in known_defs() and any(u(b_).split(".")[-1] in ("Enum", "IntEnum", "StrEnum") for b_ in c_.node.bases):
+                mem_ = [k_ for k_, v_ in c_.class_assigns.items() if not k_.startswith("_") and not isinstance(v_, ast.Lambda)]
+                if mem_ and not any(isinstance(n, ast.Assign) and any(isinstance(t, ast.Name) and t.id == "_ignore_" for t in n.targets) for n in c_.node.body):
+                    _ENUM_MEMBERS[cn_] = mem_
         fn_u = self.undecorated(fn, module, cls)
         b = [copy.deepcopy(s) for s in real_body(fn_u)]
         if fn_u is not fn:
@@ -4681,6 +4816,7 @@ class Canon:
         used = {n.id for s in b for n in ast.walk(s) if isinstance(n, ast.Name)} | {n.func.id for s in b for n in ast.walk(s) if isinstance(n, ast.Call) and isinstance(n.func, ast.Name)}
         b = [s for s in b if not (isinstance(s, ast.FunctionDef) and s.name not in used)]
         b = [ast.fix_missing_locations(_FoldConst().visit(s_)) for s_ in norm.unroll_literal_loops(inline_table_locals(b))]      # (rows of a table written in for the loop variable)
+        b = lift_ifexp(split_dict_locals(b))
         b = norm.map_pushdown(norm.extend_to_augassign(b), pure_calls=_PURE_EXT)
         b = norm.split_parallel_assign(norm.merge_display_building(b))
         b = norm.default_then_override(b)
@@ -4752,18 +4888,18 @@ class Canon:
         for s in b:
             ast.fix_missing_locations(s)
         # helpers the tables do not know that only became visible at the end (a loop fused late, a table unrolled late): once more
-        if not getattr(self, "_second_pass", False) and fn.name != "_module_level_":
+        if getattr(self, "_extra_passes", 0) < 2 and fn.name != "_module_level_":
             left = [n for s_ in b for n in ast.walk(s_) if isinstance(n, ast.Call)]
             if any(look(n) is not None for n in left):
                 f2 = copy.copy(fn)
                 f2.body = [copy.deepcopy(x) for x in b]
                 f2.decorator_list = []
                 self._keepalive.append(f2)
-                self._second_pass = True
+                self._extra_passes = getattr(self, "_extra_passes", 0) + 1
                 try:
                     b2 = self.body(f2, module, cls, inline=inline, keep=keep, subst=subst, accessors=accessors, supers=supers)
                 finally:
-                    self._second_pass = False
+                    self._extra_passes -= 1
                 b = b2
         if fn.name != "_module_level_":
             self.cache[key] = b
